@@ -437,7 +437,11 @@ class RShift(Contract):
                 continue
             st0, en0 = pre.get(p0, "start").t, pre.get(p0, "end").t
             st1, en1 = s1.get(p1, "start").t, s1.get(p1, "end").t
-            cl("part-same-nucleotide", tm.eq(st1, tm.pymod(tm.add(st0, i), n)))
+            # C13: attached to the same nucleotides (coordinates read modulo n) ...
+            cl("part-same-nucleotide", tm.eq(tm.pymod(st1, n), tm.pymod(tm.add(st0, i), n)))
+            # ... C08 additionally needs the start brought back into [0, n): slicing keeps a feature only by its
+            # literal coordinates (D-REC-SLICE)
+            cl("part-start-normalised", tm.and_(tm.le(0, st1), tm.lt(st1, n)))
             cl("part-same-length", tm.eq(tm.sub(en1, st1), tm.sub(en0, st0)))
             cl("part-same-strand", tm.eq(s1.get(p1, "strand").t, pre.get(p0, "strand").t))
             cl("part-same-ref", tm.and_(tm.eq(s1.get(p1, "ref").t, pre.get(p0, "ref").t),
